@@ -14,7 +14,7 @@ x {no Origin, Origin, Origin + Access-Control-Request-Method/-Headers} x {no Ran
 Oracle: HEAD = GET's status and header multiset modulo the timestamp value (hence the same Content-Length, Content-Type, Content-Range), empty body; OPTIONS = 2xx, empty body and, when the request carries Origin, \
 the preflight grants M-CORS predicts for the active (default allow-all) configuration: Allow-Origin = Origin, Allow-Credentials true, Allow-Methods / Allow-Headers echo the requested ones. \
 A fifth header variant per path carries two headers drawn (by the path) from G-REQ's vocabulary of request, client-hint, conditional and response header names. A quarter of the trees are served by the real release binary over loopback (class served-by-the-real-binary). Non-trivial = path served through the static-file controller (not '/'); distinct by (tree, path, method, header variant, entry); counted per request triple.",
-        &["the form demo endpoints are not pages and stay outside this check", "CORS grants are judged for the default configuration here; C11 varies the configuration"],
+        &["the form demo endpoints are not pages and stay outside this check", "CORS grants are judged for the default configuration here; C11 varies the configuration; a third of the in-process trees run under a restricted configuration (switch off, listed origins / methods / headers) where HEAD = GET is still demanded header for header"],
         if tier == Tier::Quick { 900 } else { 14400 },
     )
 }
@@ -22,7 +22,25 @@ A fifth header variant per path carries two headers drawn (by the path) from G-R
 #[derive(Clone, Debug, Serialize, Deserialize)]
 pub struct Case { pub tree: TreeSpec,
     /// production-entry requests of this tree go to the real binary
-    #[serde(default)] pub binary: bool }
+    #[serde(default)] pub binary: bool,
+    /// a restricted CORS configuration (switch off, listed origins / methods) instead of the default one: HEAD must still mirror GET, header for header
+    #[serde(default)] pub cors: Option<CorsCfg> }
+
+#[derive(Clone, Debug, Serialize, Deserialize)]
+pub struct CorsCfg { pub origins: Vec<String>, pub methods: Vec<String>, pub headers: Vec<String>, pub credentials: bool }
+
+fn set_cors_env(c: &Option<CorsCfg>) {
+    crate::fw::inproc::init_env();
+    if let Some(k) = c {
+        std::env::set_var("RWS_CONFIG_CORS_ALLOW_ALL", "false");
+        std::env::set_var("RWS_CONFIG_CORS_ALLOW_ORIGINS", k.origins.join(","));
+        std::env::set_var("RWS_CONFIG_CORS_ALLOW_METHODS", k.methods.join(","));
+        std::env::set_var("RWS_CONFIG_CORS_ALLOW_HEADERS", k.headers.join(","));
+        std::env::set_var("RWS_CONFIG_CORS_EXPOSE_HEADERS", "content-type");
+        std::env::set_var("RWS_CONFIG_CORS_ALLOW_CREDENTIALS", k.credentials.to_string());
+        std::env::set_var("RWS_CONFIG_CORS_MAX_AGE", "600");
+    }
+}
 
 fn send(method: &str, path: &str, extra: &str, entry: Entry) -> (Vec<u8>, Result<Result<(), String>, (String, String)>) {
     let req = format!("{} {} HTTP/1.1\r\nHost: localhost\r\n{}\r\n", method, path, extra);
@@ -38,6 +56,9 @@ fn multiset(r: &mhttp::Resp) -> Vec<(String, String)> {
 pub fn check_tree(ctx: &Ctx, c: &Case, count: bool) -> Verdict {
     let tree = match Tree::materialise(&c.tree, &crate::fw::scratch_base()) { Ok(t) => t, Err(e) => return Verdict::fail("tree-materialisation-failed", e.to_string()) };
     if std::env::set_current_dir(&tree.root).is_err() { return Verdict::fail("chdir-failed", String::new()); }
+    // the restricted configuration is read from the environment by the in-process routes; trees served by the real binary keep the default one
+    let restricted = c.cors.is_some() && !c.binary;
+    set_cors_env(if restricted { &c.cors } else { &None });
     if c.binary { if let Err(e) = inproc::binary_start(&tree.root) { ctx.inconclusive(&format!("real binary did not start: {}", e)); } }
     let mut paths: Vec<String> = vec!["/".into(), "/style.css".into(), "/script.js".into(), "/favicon.svg".into()];
     for f in &tree.files { paths.push(f.url.clone()); if let Some(s) = f.url.strip_suffix(".html") { if !s.ends_with('/') { paths.push(s.to_string()); } } }
@@ -91,6 +112,9 @@ pub fn check_tree(ctx: &Ctx, c: &Case, count: bool) -> Verdict {
                 // OPTIONS
                 if o.status / 100 != 2 { problems.push((format!("options-status-{}{}", o.status, if legacy { ":legacy" } else { "" }), format!("OPTIONS {} -> {} where GET -> {}", tag, o.status, g.status))); break 'outer; }
                 if !o.body.is_empty() { problems.push(("options-response-has-body".into(), format!("OPTIONS {} carries {} body bytes", tag, o.body.len()))); break 'outer; }
+                if restricted { *classes.entry("restricted-cors-configuration").or_insert(0) += 1; }
+                // the grants themselves are judged for the default configuration only (C11 varies the configuration and judges them against M-CORS)
+                if restricted { continue; }
                 if *vname == "origin" || vname.starts_with("preflight") {
                     if o.get("Access-Control-Allow-Origin") != Some("https://app.example") { problems.push(("options-without-allow-origin-grant".into(), format!("OPTIONS {}: Access-Control-Allow-Origin {:?}", tag, o.get("Access-Control-Allow-Origin")))); break 'outer; }
                     if o.get("Access-Control-Allow-Credentials") != Some("true") { problems.push(("options-without-credentials-grant".into(), format!("OPTIONS {}", tag))); break 'outer; }
@@ -118,6 +142,7 @@ pub fn check_tree(ctx: &Ctx, c: &Case, count: bool) -> Verdict {
         for (k, v) in classes { *r.classes.entry(k.to_string()).or_insert(0) += v; }
         *r.sections.entry("requests".into()).or_insert(0) += evals;
     }
+    if restricted { crate::fw::inproc::init_env(); }
     inproc::binary_stop();
     for t in inproc::binary_trouble() { ctx.inconclusive(&format!("exchange with the real binary did not complete: {}", t)); }
     let _ = std::env::set_current_dir("/");
@@ -127,7 +152,10 @@ pub fn check_tree(ctx: &Ctx, c: &Case, count: bool) -> Verdict {
 pub fn run(ctx: &Ctx) {
     crate::fw::inproc::init_env();
     *ctx.auto_sample.borrow_mut() = false;
-    let strat = { use proptest::prelude::*; (tree_strategy(false), proptest::bool::weighted(0.25)).prop_map(|(tree, binary)| Case { tree, binary }) };
+    let strat = { use proptest::prelude::*; let sub = |pool: Vec<&'static str>| proptest::collection::vec(prop::sample::select(pool), 0..4).prop_map(|v| { let mut out: Vec<String> = vec![]; for s in v { if !out.contains(&s.to_string()) { out.push(s.to_string()); } } out });
+        let cors = (prop_oneof![4 => Just(vec!["https://app.example".to_string()]), 2 => Just(vec!["https://other.example".to_string(), "https://app.example".to_string()]), 1 => Just(vec!["https://other.example".to_string()]), 1 => Just(vec![])],
+            sub(vec!["GET", "POST", "PUT", "HEAD", "OPTIONS", "DELETE"]), sub(vec!["content-type", "x-custom", "authorization"]), any::<bool>()).prop_map(|(origins, methods, headers, credentials)| CorsCfg { origins, methods, headers, credentials });
+        (tree_strategy(false), proptest::bool::weighted(0.25), proptest::option::weighted(0.35, cors)).prop_map(|(tree, binary, cors)| Case { tree, binary, cors }) };
     ctx.prop("trees", ctx.share(ctx.scale(48, 2000)), strat, |c| check_tree(ctx, c, !*ctx.shrinking.borrow()));
 }
 
